@@ -10,6 +10,7 @@ global size_of usize == 8;
 //@ include prelude/rc.rs
 //@ include prelude/std.rs
 //@ include units/inc/bytes.rs
+//@ include units/inc/stream_w.rs
 //@ extract enum IRRepr from src/classic/clvm_tools/ir/type.rs
 //@ end
 //@ include units/inc/irshow.rs
@@ -58,6 +59,31 @@ pub proof fn lemma_pending_push(st: Seq<IROutputState>, s: IROutputState)
 {
     assert(st.push(s).drop_last() =~= st);
 }
+// ---- termination of the chunk loop: a weight of the state stack that every call of next() that returns a chunk decreases
+pub open spec fn sz(v: IRS) -> nat
+    decreases v
+{
+    match v { IRS::Cons(l, r) => 1 + sz(*l) + sz(*r), _ => 1 }
+}
+pub open spec fn st_wt(s: IROutputState) -> nat {
+    match s {
+        IROutputState::Start(v) => (match irv(*v) { IRS::Cons(_, _) => 100 * sz(irv(*v)) + 60, _ => 1 }),
+        IROutputState::ListOf(v) => (match irv(*v) { IRS::Cons(_, _) => 100 * sz(irv(*v)) + 50, IRS::Null => 2, _ => 10 }),
+        IROutputState::MaybeSep(v) => (match irv(*v) { IRS::Cons(_, _) => 100 * sz(irv(*v)) + 55, IRS::Null => 2, _ => 11 }),
+        IROutputState::DotThen(v) => (match irv(*v) { IRS::Cons(_, _) => 100 * sz(irv(*v)) + 55, _ => 5 }),
+        IROutputState::EndParen => 1,
+    }
+}
+pub open spec fn wt(st: Seq<IROutputState>) -> nat
+    decreases st.len()
+{
+    if st.len() == 0 { 0 } else { st_wt(st.last()) + wt(st.drop_last()) }
+}
+pub proof fn lemma_wt_push(st: Seq<IROutputState>, s: IROutputState)
+    ensures wt(st.push(s)) == st_wt(s) + wt(st)
+{
+    assert(st.push(s).drop_last() =~= st);
+}
 pub proof fn lemma_pending_one(st: Seq<IROutputState>)
     requires st.len() == 1
     ensures pending(st) == st_text(st[0])
@@ -94,31 +120,31 @@ impl IROutputIterator {
 //@ sig r
     ensures
         match r {
-            Some(chunk) => pending(old(self).state@) == sb(chunk) + pending(final(self).state@),
+            Some(chunk) => pending(old(self).state@) == sb(chunk) + pending(final(self).state@) && wt(final(self).state@) < wt(old(self).state@),
             None => pending(old(self).state@) == Seq::<u8>::empty() && final(self).state@.len() == 0,
         }
 //@ loop 0
-            invariant pending(self.state@) == pending(old(self).state@)
+            invariant pending(self.state@) == pending(old(self).state@), wt(self.state@) <= wt(old(self).state@)
             decreases quiet_steps(self.state@)
 //@ before stmt @<match self.state.pop() {>@
             let ghost verif_st0 = self.state@;
             let ghost verif_rest = self.state@.drop_last();
-            proof { if verif_st0.len() > 0 { assert(pending(verif_st0) == st_text(verif_st0.last()) + pending(verif_rest)); } }
+            proof { if verif_st0.len() > 0 { assert(pending(verif_st0) == st_text(verif_st0.last()) + pending(verif_rest)); assert(wt(verif_st0) == st_wt(verif_st0.last()) + wt(verif_rest)); } }
 //@ before stmt @<return Some(verif_s_open());>@
                         proof {
                             let top = self.state@.last();
-                            lemma_pending_push(verif_rest, top);
+                            lemma_pending_push(verif_rest, top); lemma_wt_push(verif_rest, top);
                             assert(self.state@ =~= verif_rest.push(top));
                             let x = st_text(top);
                             assert(x == show_list(irv_r(&*v)));
                             assert(seq![0x28u8] + x + pending(verif_rest) =~= seq![0x28u8] + (x + pending(verif_rest)));
                         }
 //@ after #0 stmt @<self.state.push(IROutputState::EndParen);>@
-                        proof { lemma_pending_push(verif_rest, IROutputState::EndParen); assert(self.state@ =~= verif_rest.push(IROutputState::EndParen)); }
+                        proof { lemma_pending_push(verif_rest, IROutputState::EndParen); lemma_wt_push(verif_rest, IROutputState::EndParen); assert(self.state@ =~= verif_rest.push(IROutputState::EndParen)); }
 //@ before stmt @<return Some(verif_s_blank());>@
                         proof {
                             let top = self.state@.last();
-                            lemma_pending_push(verif_rest, top);
+                            lemma_pending_push(verif_rest, top); lemma_wt_push(verif_rest, top);
                             assert(self.state@ =~= verif_rest.push(top));
                             let x = st_text(top);
                             assert(seq![0x20u8] + x + pending(verif_rest) =~= seq![0x20u8] + (x + pending(verif_rest)));
@@ -130,11 +156,13 @@ impl IROutputIterator {
                             let b = self.state@[n - 1];
                             lemma_pending_push(verif_rest, a);
                             lemma_pending_push(verif_rest.push(a), b);
+                            lemma_wt_push(verif_rest, a);
+                            lemma_wt_push(verif_rest.push(a), b);
                             assert(self.state@ =~= verif_rest.push(a).push(b));
                             assert(st_text(b) + (st_text(a) + pending(verif_rest)) =~= st_text(b) + st_text(a) + pending(verif_rest));
                         }
 //@ after #1 stmt @<self.state.push(IROutputState::EndParen);>@
-                        proof { lemma_pending_push(verif_rest, IROutputState::EndParen); assert(self.state@ =~= verif_rest.push(IROutputState::EndParen)); }
+                        proof { lemma_pending_push(verif_rest, IROutputState::EndParen); lemma_wt_push(verif_rest, IROutputState::EndParen); assert(self.state@ =~= verif_rest.push(IROutputState::EndParen)); }
 //@ before stmt @<return Some(verif_s_dot());>@
                         proof {
                             let n = self.state@.len() as int;
@@ -142,6 +170,8 @@ impl IROutputIterator {
                             let b = self.state@[n - 1];
                             lemma_pending_push(verif_rest, a);
                             lemma_pending_push(verif_rest.push(a), b);
+                            lemma_wt_push(verif_rest, a);
+                            lemma_wt_push(verif_rest.push(a), b);
                             assert(self.state@ =~= verif_rest.push(a).push(b));
                             let t = tok(irv_r(&*v));
                             assert(st_text(b) == t);
@@ -154,13 +184,57 @@ impl IROutputIterator {
                             let b = self.state@[n - 1];
                             lemma_pending_push(verif_rest, a);
                             lemma_pending_push(verif_rest.push(a), b);
+                            lemma_wt_push(verif_rest, a);
+                            lemma_wt_push(verif_rest.push(a), b);
                             assert(self.state@ =~= verif_rest.push(a).push(b));
                             assert(st_text(b) + (st_text(a) + pending(verif_rest)) =~= st_text(b) + st_text(a) + pending(verif_rest));
                         }
 //@ after stmt @<self.state.push(IROutputState::Start(v.clone()));>@
-                        proof { let b = self.state@.last(); lemma_pending_push(verif_rest, b); assert(self.state@ =~= verif_rest.push(b)); }
+                        proof { let b = self.state@.last(); lemma_pending_push(verif_rest, b); lemma_wt_push(verif_rest, b); assert(self.state@ =~= verif_rest.push(b)); }
 //@ end
 }
+
+impl Stream {
+// proved in unit `serloop` (same contract text)
+//@ extract fn write from src/classic/clvm/__type_compatibility__.rs in impl Stream
+//@ stub
+//@ sigfile r contracts/stream_write.sig
+//@ end
+}
+pub proof fn lemma_app3(a: Seq<u8>, b: Seq<u8>, c: Seq<u8>)
+    ensures (a + b) + c == a + (b + c)
+{ assert((a + b) + c =~= a + (b + c)); }
+
+//@ note write_ir_to_stream (classic disassembler's text output): it appends exactly show(term) to a stream positioned at its end and terminates (a weight of the writer's state stack decreases with every chunk)
+//@ extract fn write_ir_to_stream from src/classic/clvm_tools/ir/writer.rs
+//@ replace-span R31 @<for b in IROutputIterator::new(ir_sexp) {>@ @<f.write(Bytes::new(Some(BytesFromType::String(b))));>@
+    let ghost verif_d0 = stream_data(*f);
+    let ghost verif_t = show(irv_r(&*ir_sexp));
+    let mut verif_it = IROutputIterator::new(ir_sexp);
+    proof { lemma_pending_one(verif_it.state@); assert(verif_d0 + verif_t =~= stream_data(*f) + pending(verif_it.state@)); }
+    loop
+        invariant_except_break
+            stream_data(*f) + pending(verif_it.state@) == verif_d0 + verif_t,
+        invariant
+            stream_wf(*f), stream_at_end(*f), verif_d0.len() + verif_t.len() <= usize::MAX / 4,
+        ensures
+            stream_wf(*f), stream_at_end(*f), stream_data(*f) == verif_d0 + verif_t,
+        decreases wt(verif_it.state@)
+    {
+        let ghost verif_before = pending(verif_it.state@);
+        let verif_nx = verif_it.next();
+        if verif_nx.is_none() { proof { assert(stream_data(*f) + Seq::<u8>::empty() =~= stream_data(*f)); } break; }
+        let b = verif_nx.unwrap();
+        proof {
+            lemma_app3(stream_data(*f), sb(b), pending(verif_it.state@));
+            assert((stream_data(*f) + verif_before).len() == stream_data(*f).len() + verif_before.len());
+            assert(verif_before.len() == sb(b).len() + pending(verif_it.state@).len());
+        }
+        f.write(Bytes::new(Some(BytesFromType::String(b))));
+//@ sig
+    requires stream_wf(*old(f)), stream_at_end(*old(f)), stream_data(*old(f)).len() + show(irv(*ir_sexp)).len() <= usize::MAX / 4
+    ensures stream_wf(*final(f)), stream_at_end(*final(f)), stream_data(*final(f)) == stream_data(*old(f)) + show(irv(*ir_sexp))
+//@ end
 
 }
 fn main() {}
